@@ -193,7 +193,7 @@ def relations_event(darsia, rng, tid, thin=False):
     cnum, cden = rng.choice([(2, 1), (4, 1), (1, 2), (3, 2), (5, 1)])
     c = cnum / cden
     e = {"tid": tid, "op": "relations", "shape": list(shape), "method": method, "l1": l1, "mob": mob, "cnum": cnum, "cden": cden, "raised": 0, "kind": kind,
-         "self6": 0, "base6": 0, "swap6": 0, "scaled6": 0, "wscaled6": 0, "scale_applicable": 0, "wscale_applicable": 0, "moment6": 0, "min6": -1, "front6": 0, "back6": 0}
+         "self6": 0, "base6": 0, "swap6": 0, "scaled6": 0, "wscaled6": 0, "scale_applicable": 0, "wscale_applicable": 0, "moment6": 0, "min6": -1, "front6": 0, "back6": 0, "status_same": 1}
     try:
         img1, img2 = make_images(darsia, shape, hs, a1.reshape(shape), a2.reshape(shape))
         e["self6"] = d6(solve(darsia, img1, img1, method, l1, mob, extra=XTRA))
@@ -225,6 +225,25 @@ def relations_event(darsia, rng, tid, thin=False):
             with np.errstate(all="ignore"):
                 e["back6"] = d6(cls(grid, None, dict(opts))(img1, img2))
         e["front6"] = e["base6"]
+        # one back-end object for two pairs: an easy one (identical images: the criteria are met at once), then this pair on a
+        # budget that is too small to meet them - distance AND status are those the front-end returns for this pair
+        if not thin:
+            sopts = dict(opts, num_iter=3, return_status=True, tol_residual=1e-14, tol_increment=1e-14, tol_distance=1e-14)
+            with warnings.catch_warnings():
+                warnings.simplefilter("ignore")
+                with np.errstate(all="ignore"):
+                    easy = dict(sopts, num_iter=30)
+                    for k_ in ("tol_residual", "tol_increment", "tol_distance"):
+                        easy.pop(k_)                   # default tolerances: met as soon as the test is evaluated
+                    live = dict(easy)
+                    obj = cls(grid, None, live)
+                    _, st_easy = obj(img2, img1)
+                    live.clear()
+                    live.update(sopts)                 # the caller tightens its options for the next pair
+                    d_obj, st_obj = obj(img1, img2)
+                    e["easy_converged"] = int(bool(st_easy))
+                    d_fr, st_fr = darsia.wasserstein_distance(img1, img2, method=method, options=dict(sopts))
+            e["status_same"] = int(bool(st_obj) == bool(st_fr) and abs(float(d_obj) - float(d_fr)) <= 1e-9 * max(1.0, abs(float(d_fr))))
         # minimum of the discrete cost over all mass-conserving fluxes (cycle space), as a certified bracket
         D = incidence(grid)
         rhs = vol * (a2 - a1).reshape(shape).ravel("F")
